@@ -55,10 +55,13 @@ func genRigCase(r *rng.R) rigIn {
 		p.Config.DefaultSecurity = &irSecComp{Name: "sec0", Scopes: []string{"read"}}
 	}
 	p.Types = []pType{
-		{Kind: "struct", Name: "Item", Pkg: "ctl", File: "types.go", Fields: []pField{{Name: "Name", Type: "string", Tag: `json:"name" validate:"required"`}, {Name: "Count", Type: "int", Tag: `json:"count"`}}},
+		{Kind: "struct", Name: "Item", Pkg: "ctl", File: "types.go", Fields: []pField{{Name: "Name", Type: "string", Tag: `json:"name" validate:"required"`}, {Name: "Count", Type: "int", Tag: `json:"count" validate:"gte=0"`}}},
 		{Kind: "enum", Name: "Color", Pkg: "ctl", File: "types.go", Base: "string", Consts: [][2]string{{"ColorRed", `"red"`}, {"ColorGreen", `"green"`}}},
 		// the same shape in another package: a parameter of the same NAME with a type from another package needs its own import alias
-		{Kind: "struct", Name: "Parcel", Pkg: "other", File: "models.go", Fields: []pField{{Name: "Name", Type: "string", Tag: `json:"name" validate:"required"`}, {Name: "Count", Type: "int", Tag: `json:"count"`}}},
+		{Kind: "struct", Name: "Parcel", Pkg: "other", File: "models.go", Fields: []pField{{Name: "Name", Type: "string", Tag: `json:"name" validate:"required"`}, {Name: "Count", Type: "int", Tag: `json:"count" validate:"gte=0"`}}},
+		// `required` on a by-value struct field is a no-op for go-playground's default validator (every engine uses it)
+		{Kind: "struct", Name: "Meta", Pkg: "ctl", File: "types.go", Fields: []pField{{Name: "Note", Type: "string", Tag: `json:"note"`}}},
+		{Kind: "struct", Name: "Wrap", Pkg: "ctl", File: "types.go", Fields: []pField{{Name: "Meta", Type: "Meta", Tag: `json:"meta" validate:"required"`}, {Name: "Name", Type: "string", Tag: `json:"name" validate:"required"`}}},
 		{Kind: "struct", Name: "Failure", Pkg: "ctl", File: "types.go", Fields: []pField{{Name: "Err", Type: "error", Tag: `json:"-"`}, {Name: "Code", Type: "int", Tag: `json:"code"`}}},
 	}
 	p.Config.Globs = []string{"./ctl/*.go"}
@@ -179,6 +182,8 @@ func genRigCase(r *rng.R) rigIn {
 					}
 					if enumBody {
 						bt = "Employee"
+					} else if !firstBody && !strings.HasPrefix(bt, "[]") && bt != "Employee" && r.Chance(1, 4) {
+						bt = "Wrap"
 					}
 					params = append(params, rigParam{name: "body", ty: bt, loc: "Body", wire: "body"})
 				case 1:
@@ -286,11 +291,14 @@ func genRigCase(r *rng.R) rigIn {
 							q.Body = fmt.Sprintf(`{"name":"dana","dept":%q}`, rng.Pick(r, []string{"eng", "r&d"}))
 							q.BodyType = "Employee"
 						}
+						if prm.ty == "Wrap" {
+							q.Body = fmt.Sprintf(`{"meta":{"note":%q},"name":"w"}`, rng.Pick(r, []string{"n", ""}))
+						}
 						if b, ok := over["body"]; ok {
 							q.Body = b
 						}
-						if prm.ty == "Employee" {
-							q.BodyType = "Employee"
+						if prm.ty == "Employee" || prm.ty == "Wrap" {
+							q.BodyType = prm.ty
 						}
 					}
 				}
@@ -390,7 +398,16 @@ func genRigCase(r *rng.R) rigIn {
 			for _, prm := range params {
 				bodyIsEmployee = bodyIsEmployee || prm.ty == "Employee"
 			}
-			if bodyKind == "json" && bodyIsEmployee {
+			bodyIsWrap := false
+			for _, prm := range params {
+				bodyIsWrap = bodyIsWrap || prm.ty == "Wrap"
+			}
+			if bodyKind == "json" && bodyIsWrap {
+				add(build("body-nested-struct-absent", vals{"body": `{"name":"w"}`}, "", nil))
+				add(build("body-nested-struct-empty", vals{"body": `{"meta":{},"name":"w"}`}, "", nil))
+				add(build("body-nested-struct-null", vals{"body": `{"meta":null,"name":"w"}`}, "", nil))
+				add(build("body-missing-required", vals{"body": `{"meta":{"note":"n"}}`}, "", nil))
+			} else if bodyKind == "json" && bodyIsEmployee {
 				add(build("body-enum-member-with-ampersand", vals{"body": `{"name":"dana","dept":"r&d"}`}, "", nil))
 				add(build("body-enum-not-a-member", vals{"body": `{"name":"dana","dept":"r&amp;d"}`}, "", nil))
 				add(build("body-enum-missing", vals{"body": `{"name":"dana"}`}, "", nil))
@@ -400,6 +417,8 @@ func genRigCase(r *rng.R) rigIn {
 				add(build("body-slice-empty", vals{"body": `[]`}, "", nil))
 			} else if bodyKind == "json" {
 				add(build("body-missing-required", vals{"body": `{"count":3}`}, "", nil))
+				add(build("body-second-field-invalid", vals{"body": `{"name":"x","count":-1}`}, "", nil))
+				add(build("body-two-fields-invalid", vals{"body": `{"count":-5}`}, "", nil))
 				add(build("body-malformed", vals{"body": `{"name":`}, "", nil))
 				add(build("body-trailing-data", vals{"body": rng.Pick(r, []string{`{"name":"x","count":1} trailing`, `{"name":"x","count":1}{"name":"y","count":2}`, `{"name":"x","count":1}]`})}, "", nil))
 			}
